@@ -98,7 +98,7 @@ func init() { solver.RegisterHint(sqHint) }
 type wideCircuit struct {
 	X   [160]frontend.Variable
 	B   [160]frontend.Variable // 160 independent boolean assertions: one wide level of pure checks
-	Out frontend.Variable `gnark:",public"`
+	Out frontend.Variable      `gnark:",public"`
 }
 
 func (c *wideCircuit) Define(api frontend.API) error {
@@ -106,8 +106,21 @@ func (c *wideCircuit) Define(api frontend.API) error {
 		api.AssertIsBoolean(c.B[i])
 	}
 	lvl := make([]frontend.Variable, len(c.X))
+	// lookup tables are spread through the first (wide, parallel) level: each has a multi-term
+	// entry whose last wire is produced by the multiplication created just before the lookup, so
+	// that for some task count a producer ends one task chunk and its lookup starts the next
+	var lookups []frontend.Variable
 	for i := range c.X {
 		lvl[i] = api.Mul(c.X[i], c.X[(i+1)%len(c.X)])
+		if i%13 == 5 {
+			k := i / 13
+			prod := api.Mul(c.X[(i+3)%len(c.X)], c.X[(i+4)%len(c.X)])
+			t := logderivlookup.New(api)
+			t.Insert(c.X[(i+5)%len(c.X)])
+			t.Insert(api.Add(c.X[(i+6)%len(c.X)], prod))
+			q := t.Lookup(c.B[k])
+			lookups = append(lookups, q[0])
+		}
 	}
 	for i := range lvl {
 		h, err := api.Compiler().NewHint(sqHint, 1, lvl[i])
@@ -121,14 +134,9 @@ func (c *wideCircuit) Define(api frontend.API) error {
 	for i := range lvl {
 		acc = api.Add(acc, api.Mul(lvl[i], lvl[(i+7)%len(lvl)]))
 	}
-	// a lookup table inside the wide part of the system; one entry is a multi-term expression
-	// whose last wire is produced by an instruction of the first (parallel) level
-	t := logderivlookup.New(api)
-	t.Insert(c.X[5])
-	t.Insert(api.Add(c.X[6], api.Mul(c.X[7], c.X[8])))
-	t.Insert(api.Add(api.Mul(c.X[9], c.X[10]), c.X[11], 3))
-	q := t.Lookup(c.B[0], api.Add(c.B[1], 1))
-	acc = api.Add(acc, q[0], api.Mul(q[1], 7))
+	for k, q := range lookups {
+		acc = api.Add(acc, api.Mul(q, k+2))
+	}
 	api.AssertIsEqual(c.Out, acc)
 	return nil
 }
@@ -159,13 +167,21 @@ func wideWitnesses(rng *rand.Rand, p *big.Int, n int) []Wit {
 			bits[i] = rng.IntN(2)
 			a.B[i] = bits[i]
 		}
-		entries := []*big.Int{
-			new(big.Int).Set(x[5]),
-			new(big.Int).Add(x[6], new(big.Int).Mul(x[7], x[8])),
-			new(big.Int).Add(new(big.Int).Add(new(big.Int).Mul(x[9], x[10]), x[11]), big.NewInt(3)),
+		n := len(x)
+		kk := 0
+		for i := 0; i < n; i++ {
+			if i%13 == 5 {
+				k := i / 13
+				e0 := x[(i+5)%n]
+				e1 := new(big.Int).Add(x[(i+6)%n], new(big.Int).Mul(x[(i+3)%n], x[(i+4)%n]))
+				q := e0
+				if bits[k] == 1 {
+					q = e1
+				}
+				acc.Add(acc, new(big.Int).Mul(q, big.NewInt(int64(kk+2))))
+				kk++
+			}
 		}
-		acc.Add(acc, entries[bits[0]])
-		acc.Add(acc, new(big.Int).Mul(entries[bits[1]+1], big.NewInt(7)))
 		acc.Mod(acc, p)
 		valid, name := true, "valid"
 		switch k % 4 {
